@@ -1,6 +1,6 @@
 """C08 — fast fields return exactly the values indexed: only the code tables of the columnar format."""
 from .. import codetab as ct
-from ..rules import get_body, short, calls_to, rule_who_may_call
+from ..rules import get_body, short, calls_to, rule_who_may_call, site
 from ..model import provenance, op_local, trace_back
 
 C = "tantivy_columnar::"
@@ -86,8 +86,29 @@ def r2(rep, prog):
                   % (sigs["writer"], sigs["reader"]), site=wb.span)
 
 
+def r3(rep, prog):
+    """range bounds are turned into inclusive ranges with checked arithmetic"""
+    R = "C08-R3"
+    rep.rule(R, "checked bound arithmetic: the helpers that turn the Bound<T> of a fast-field range query into an inclusive value range (bound_to_value_range, bound_range_inclusive_ip, ...) step over an excluded bound with checked_add / checked_sub — no overflow-checked `+ 1` / `- 1` (an Overflow assert in MIR, a wrap-around in release builds) on a value taken from the query: `(ffff:..:ffff, *]` and `[*, ::)` are empty ranges, not panics or wrapped ranges that match documents")
+    pre = "tantivy::query::range_query::range_query_fastfield::"
+    n = 0
+    for fid in sorted(prog.bodies):
+        if not fid.startswith(pre) or "::tests::" in fid or "bound" not in fid.split("::")[-1]:
+            continue
+        b = prog.bodies[fid]
+        if "{closure" in fid:
+            continue
+        n += 1
+        ovf = [bi for bi in b.normal_blocks() if b.term(bi)["k"] == "assert" and "Overflow" in str(b.term(bi).get("msg", ""))]
+        rep.check(not ovf, R, "%s steps over excluded bounds with checked arithmetic" % short(fid), "no overflow assert",
+                  "`%s` computes an inclusive bound with unchecked `+ 1` / `- 1` (%d overflow check(s) in MIR): a range query with an excluded bound at the extreme value panics in builds with overflow checks and "
+                  "wraps around — matching documents it must not — without them" % (fid, len(ovf)), site=site(b, ovf[0]) if ovf else b.span)
+    rep.floor(R, "bound-to-range helpers of the fast-field range query", n, 2)
+
+
 def run(rep, prog, tier):
     r2(rep, prog)
+    r3(rep, prog)
     R = "C08-R1"
     rep.rule(R, "every (to_code, try_from_code) pair of the columnar format is mutually inverse on all variants; COLUMN_TYPES[i] has discriminant i and covers the enum; ALL_U64_CODEC_TYPES is complete; the current format version is accepted by the reader")
     rep.not_decided += ["codec arithmetic, optional / multivalued indexes, merge (values)"]
